@@ -355,14 +355,18 @@ def _cpu_bounded(f: Any, seconds: float = 1.0) -> Any:
     if threading.current_thread() is not threading.main_thread() or signal.getitimer(signal.ITIMER_VIRTUAL)[0] > 0:
         return f()  # (an enclosing budget is already running)
 
+    live = {"on": True}
+
     def on_alarm(signum: int, frame: Any) -> None:
-        raise _TooLong()
+        if live["on"]:
+            raise _TooLong()
 
     old = signal.signal(signal.SIGVTALRM, on_alarm)
-    signal.setitimer(signal.ITIMER_VIRTUAL, seconds)
+    signal.setitimer(signal.ITIMER_VIRTUAL, seconds, 0.25)  # repeating: an exception raised inside a GC callback is swallowed
     try:
         return f()
     finally:
+        live["on"] = False
         signal.setitimer(signal.ITIMER_VIRTUAL, 0)
         signal.signal(signal.SIGVTALRM, old)
 
